@@ -126,6 +126,28 @@ def run_case(rng, tier, case):
         if abs(float(row['costs']) - wantc) > 1e-6 * (1 + abs(wantc)) or abs(float(row['value']) - frac[k]) > 1e-9:
             okc = False; bad = [k, float(row['costs']), wantc, float(row['value']), float(frac[k])]
     case.check('orders.costs_reported', okc and seen == set(inside), nonvacuous=executed, bad=bad, reported_orders=sorted(seen)[:10], in_horizon=inside[:10])
+    # the cost vector alone (the documented costs_only route used for price samples / robust / SLP) is the problem's cost vector
+    try:
+        with attach.paused(), env.quiet():
+            c_only = np.asarray(r.built.portfolio.setup_optim_problem(r.built.prices, r.built.timegrid, costs_only=True), float)
+        cfull = Snap(r.op).c
+        case.check('orders.cost_vector_equals_problem_costs', c_only.shape == cfull.shape and bool(np.allclose(c_only, cfull, rtol=1e-9, atol=1e-12)), wacc=ob.get('wacc', 0.),
+                   worst=float(np.max(np.abs(c_only - cfull))) if c_only.shape == cfull.shape else None)
+    except Exception as e:
+        case.check('orders.cost_vector_equals_problem_costs', False, error='%s: %s' % (type(e).__name__, str(e)[:160]))
+    if mip and rng.random() < 0.6:
+        # the documented relaxed run on the same problem object, then an ordinary run again: full execution is enforced as before
+        try:
+            with attach.paused(), env.quiet():
+                r.op.optimize(make_soft_problem=True)
+                res2 = r.op.optimize()
+            if not isinstance(res2, str):
+                f2 = np.asarray(res2.x, float)[off:off + n]
+                fi2 = f2[inside] if inside else np.zeros(0)
+                case.check('orders.full_exec_integral', bool(np.all(np.abs(fi2 - np.round(fi2)) <= 1e-6)), nonvacuous=len(fi2) > 0, fractions=fi2[:10].tolist(), after_relaxed_run=True)
+                case.check('orders.value_equals_reference', abs(float(res2.value) - sol['value']) <= solve.TOL_VAL_MIP * (1 + abs(v)), eao=float(res2.value), reference=sol['value'], after_relaxed_run=True)
+        except Exception as e:
+            case.check('orders.rerun_after_relaxed_run_works', False, error='%s: %s' % (type(e).__name__, str(e)[:160]))
     # the same objects on the same grid object a second time (the book then already holds the grid; another asset was the last to restrict it):
     # delivery windows, payments and discounting of the orders are those of the first set-up
     if rng.random() < 0.5:
